@@ -258,10 +258,12 @@ def what_pool():
 WHAT_POOL = what_pool()
 
 
-def f_case(items, attr_id, val_id):
-    a = ATTRS[attr_id]
-    return {"kind": "filter", "what": [i[0] for i in items], "attr": {"name": a[1], "sig": a[2]},
-            "valType": VALUES[val_id][1], "py": {"what": [list(i[1]) for i in items], "attr": attr_id, "val": val_id}}
+def f_case(items, queries, fresh=False):
+    """queries: [(attr_id, val_id)] asked of ONE include object and ONE exclude object, in this order
+    (fresh=True: a new filter per question -- harness-only variation the model is independent of)"""
+    return {"kind": "filter", "what": [i[0] for i in items],
+            "queries": [{"attr": {"name": ATTRS[a][1], "sig": ATTRS[a][2]}, "valType": VALUES[v][1]} for a, v in queries],
+            "py": {"what": [list(i[1]) for i in items], "queries": [[a, v] for a, v in queries], "fresh": fresh}}
 
 
 def _what_obj(kind, key):
@@ -285,31 +287,73 @@ def _fr(thunk):
 def f_observe(case):
     py = case["py"]
     what = [_what_obj(k, key) for k, key in py["what"]]
-    a = ATTRS[py["attr"]][0]
-    v = VALUES[py["val"]][0]()
-    return {"inc": _fr(lambda: filters.include(*what)(a, v)), "exc": _fr(lambda: filters.exclude(*what)(a, v))}
+    inc_f, exc_f = filters.include(*what), filters.exclude(*what)
+    inc, exc = [], []
+    for attr_id, val_id in py["queries"]:
+        if py.get("fresh"):
+            inc_f, exc_f = filters.include(*what), filters.exclude(*what)
+        a = ATTRS[attr_id][0]
+        v = VALUES[val_id][0]()
+        inc.append(_fr(lambda: inc_f(a, v)))
+        exc.append(_fr(lambda: exc_f(a, v)))
+    return {"inc": inc, "exc": exc}
+
+
+NAME_GROUPS = [["A.x", "B.x", "Sub.x", "D.x"], ["A.y", "B.y"]]
+
+
+def rand_history(rng, attr_ids, val_ids):
+    """a sequence of questions to one filter object: same-named fields of different classes (equal and non-equal
+    Attributes) with values of one exact type, interleaved with unrelated questions"""
+    qs = []
+    for _ in range(rng.choice([1, 1, 2])):
+        grp = list(rng.choice(NAME_GROUPS))
+        rng.shuffle(grp)
+        v = rng.choice(val_ids)
+        for a in grp[:rng.choice([2, 3, 4])]:
+            qs.append((a, v if rng.random() < 0.8 else rng.choice(val_ids)))
+            if rng.random() < 0.3:
+                qs.append((rng.choice(attr_ids), rng.choice(val_ids)))
+    if rng.random() < 0.5:
+        qs.append(qs[0])          # the first question again, at the end
+    return qs
 
 
 def f_gen(tier, rng):
     attr_ids = list(ATTRS)
     val_ids = list(VALUES)
     kmax = 1 if tier == "quick" else 2
+    allq = [(a, v) for a in attr_ids for v in val_ids]
     for k in range(kmax + 1):
         for items in itertools.product(WHAT_POOL, repeat=k):
-            for a in attr_ids:
-                for v in val_ids:
-                    yield f_case(list(items), a, v)
+            if k <= 1:
+                # every (attribute, value) pair on a filter of its own ...
+                for q in allq:
+                    yield f_case(list(items), [q])
+            # ... and all of them asked of one filter object, in two orders
+            for _ in range(2 if k <= 1 else 1):
+                order = list(allq)
+                rng.shuffle(order)
+                yield f_case(list(items), order)
     n = 5000 if tier == "quick" else 80000
     for _ in range(n):
-        k = rng.choice([2, 2, 3, 4, 6])
+        k = rng.choice([1, 2, 2, 3, 4, 6])
         items = [rng.choice(WHAT_POOL) for _ in range(k)]
-        yield f_case(items, rng.choice(attr_ids), rng.choice(val_ids))
+        if rng.random() < 0.6:
+            # make sure an Attribute object is listed: the verdict then depends on more than (name, type)
+            items[rng.randrange(k)] = rng.choice([w for w in WHAT_POOL if w[1][0] == "attr"])
+        yield f_case(items, rand_history(rng, attr_ids, val_ids), fresh=rng.random() < 0.15)
 
 
 def f_dist(case, obs):
     kinds = sorted({w if isinstance(w, str) else next(iter(w)) for w in case["what"]})
+    qs = case["queries"]
+    same_name_diff_attr = any(p["attr"]["name"] == q["attr"]["name"] and p["attr"] != q["attr"] and p["valType"] == q["valType"]
+                              for i, p in enumerate(qs) for q in qs[i + 1:])
+    inc = obs.get("inc", []) if isinstance(obs, dict) else []
     return {"filter.n_what": len(case["what"]), "filter.kinds": "+".join(kinds) or "-",
-            "filter.inc": obs.get("inc") if isinstance(obs, dict) else "?", "filter.valType": case["valType"]}
+            "filter.n_queries": min(len(qs), 9), "filter.same_name_other_attr_same_type": same_name_diff_attr,
+            "filter.any_included": "T" in inc}
 
 
 # ============================================================================================ cmp_using
